@@ -283,6 +283,43 @@ fn probe<A: Codec>(decl: Value) {
         let mut pushed = Seq::<A>::new();
         for x in A::items() { pushed.push(x); }
         if back != codes || pushed != seq || seq.len() != codes.len() || &seq[1..] != &pushed[1..] { rt = vec![0]; }
+        // "sequences over a derived codec satisfy the same round-trip laws as built-ins": a 150-symbol
+        // sequence (crosses 64-bit words for every width 1..8) against plain String / Vec operations
+        let cs: Vec<char> = A::items().map(|x| x.to_char()).collect();
+        let long: String = (0..150).map(|i| cs[(i * 7 + i / 3) % cs.len()]).collect();
+        let ls: Seq<A> = Seq::try_from(long.as_str()).unwrap();
+        let mut ok = ls.to_string() == long && ls.len() == 150;
+        for (a, b) in [(0usize, 150usize), (1, 64), (21, 22), (63, 129), (100, 100), (149, 150)] {
+            ok &= ls[a..b].to_string() == long[a..b];
+            ok &= ls[a..b].to_owned().to_string() == long[a..b] && ls[a..b].to_owned() == ls[a..b];
+            ok &= feed_of(&ls[a..b]) == feed_of(&ls[a..b].to_owned());
+            ok &= ls[a..b].iter().map(|x| x.to_char()).collect::<String>() == long[a..b];
+            ok &= ls[a..b].rev_iter().map(|x| x.to_char()).collect::<String>() == long[a..b].chars().rev().collect::<String>();
+            ok &= ls[a..b].to_rev().to_string() == long[a..b].chars().rev().collect::<String>();
+        }
+        let mut twice = ls.to_rev();
+        twice.rev();
+        ok &= twice == ls;
+        let mut e = ls[5..40].to_owned();
+        let mut es: String = long[5..40].to_string();
+        e.insert(3, &ls[60..70]);
+        es.insert_str(3, &long[60..70]);
+        e.remove(1..4);
+        es.replace_range(1..4, "");
+        e.prepend(&ls[140..]);
+        es.insert_str(0, &long[140..]);
+        e.append(&ls[..9]);
+        es.push_str(&long[..9]);
+        e.truncate(50);
+        es.truncate(50);
+        ok &= e.to_string() == es && e.len() == es.len();
+        ok &= ls.windows(9).count() == 142 && ls.chunks(9).count() == 16;
+        ok &= ls.windows(9).nth(57).map(|w| w.to_string()) == Some(long[57..66].to_string());
+        ok &= ls.chunks(9).last().map(|w| w.to_string()) == Some(long[135..144].to_string());
+        if A::BITS as usize * 3 <= 64 && A::BITS > 0 {
+            ok &= ls.kmers::<3>().map(|k| k.to_string()).collect::<Vec<_>>() == (0..148).map(|i| long[i..i + 3].to_string()).collect::<Vec<_>>();
+        }
+        if !ok { rt = vec![0]; }
         json!({"bits": A::BITS, "tfb": tfb, "tfa": tfa, "unsafe_agree": agree, "codes": codes, "chars": chars, "roundtrip": rt})
     }));
     let obs = r.unwrap_or(json!({"panic": true}));
